@@ -58,3 +58,13 @@ func InitGrolNoMemLimit() {
 		}
 	})
 }
+
+// InitGrolWith configures grol with an explicit extension configuration (child processes of C17).
+func InitGrolWith(cfg *extensions.Config) {
+	log.SetOutput(io.Discard)
+	log.SetLogLevelQuiet(log.Critical)
+	debug.SetMemoryLimit(1 << 30)
+	if err := extensions.Init(cfg); err != nil {
+		panic(err)
+	}
+}
